@@ -29,10 +29,17 @@ pub open spec fn head_bytes() -> Seq<u8> { seq![72u8, 69, 65, 68] }   // "HEAD"
 pub fn vp_is_head(m: &Method) -> (r: bool) ensures r == (method_bytes(m) == head_bytes()) { m == Method::HEAD }
 #[verifier::external_body]
 pub fn vp_is_not_head(m: &Method) -> (r: bool) ensures r == (method_bytes(m) != head_bytes()) { m != Method::HEAD }
+/// R13: `s == StatusCode::NAME` / `s != StatusCode::NAME` with the constant replaced by its numeric code (table read from the
+/// http crate's source at generation time; StatusCode equality is equality of the code)
 #[verifier::external_body]
-pub fn vp_is_no_content(s: StatusCode) -> (r: bool) ensures r == (status_u16(s) == 204) { s == StatusCode::NO_CONTENT }
+pub fn vp_status_is(s: StatusCode, code: u16) -> (r: bool) ensures r == (status_u16(s) == code) { s.as_u16() == code }
 #[verifier::external_body]
-pub fn vp_is_not_modified(s: StatusCode) -> (r: bool) ensures r == (status_u16(s) == 304) { s == StatusCode::NOT_MODIFIED }
+pub fn vp_status_is_not(s: StatusCode, code: u16) -> (r: bool) ensures r == (status_u16(s) != code) { s.as_u16() != code }
+/// R13: `matches!(status, StatusCode::A | StatusCode::B ..)` with the constants replaced by their numeric codes
+#[verifier::external_body]
+pub fn vp_status_in_set(s: StatusCode, codes: &[u16]) -> (r: bool)
+    ensures r == codes@.contains(status_u16(s))
+{ codes.contains(&s.as_u16()) }
 
 /// `h.get_all(CONTENT_ENCODING).into_iter().filter_map(|v| v.to_str().ok()).any(F)` with F abstracted
 #[verifier::external_body]
